@@ -30,7 +30,7 @@ def run(ck):
     if r.violated == 'ShiftExact':
         if not ck.known_finding_seen(KF):
             ck.violation(KF, 'spec/MC_Alu_W4_strict.cfg', 'shift by exactly 40: carry is not the last bit shifted out')
-    isa_common.family_check(ck, FAMILY, ck.pick(2, 4), 'c04', rounds=ck.pick(1, 3))
+    isa_common.family_check(ck, FAMILY, ck.pick(4, 8), 'c04', rounds=ck.pick(1, 4))
     ck.assumptions += isa_common.ISA_ASSUMPTIONS
 
 
